@@ -41,7 +41,8 @@ PLANS = {
     },
     "C04": {
         "quick": [("c04q", inst(LeafFam="<-C04LeavesQ", MaxLeaves=3, MaxCalls=5, StrictFam="<-cStrictOnly", StopAfterDeviation=True), {}, None)],
-        "thorough": [("c04t", inst(LeafFam="<-C04LeavesT", MaxLeaves=3, MaxCalls=6, StrictFam="<-cStrictOnly", StopAfterDeviation=True), {"clones": 1}, None),
+        "thorough": [("c04t", inst(LeafFam="<-C04LeavesT", MaxLeaves=2, MaxCalls=6, StrictFam="<-cStrictOnly", StopAfterDeviation=True), {"clones": 1}, None),
+                     ("c04tq", inst(LeafFam="<-C04LeavesQ", MaxLeaves=3, MaxCalls=6, StopAfterDeviation=True), {"clones": 1}, None),
                      ("c04t4", inst(LeafFam="<-C04LeavesQ", MaxLeaves=4, MaxCalls=8, StopAfterDeviation=True), {}, {"num": 200000, "depth": 10})],
     },
     "C07": {
